@@ -1147,6 +1147,8 @@ class Ev:
             return lib_set_method(name)(self, [Tup(list(a.items), "set"), b], {}, n, mod)
         if isinstance(a, Tup) and isinstance(op, ast.Mult) and is_sym(b) and b.is_Integer:
             return Tup(a.items * int(b), a.kind)
+        if isinstance(a, Tup) and a.kind in ("tuple", "list") and len(a.items) == 1 and isinstance(op, ast.Mult) and is_sym(b) and not b.is_number and b.is_integer is not False:
+            return RepeatV(a.items[0], b)        # (x,) * n with a count that is not a constant
         if isinstance(a, ArrV) or isinstance(b, ArrV):
             # a plain list of numbers broadcasts like a one-dimensional array
             if isinstance(a, Tup) and a.kind in ("list", "tuple"):
@@ -1551,6 +1553,8 @@ class Ev:
             raise RaisedV("KeyError", f"{mod.rel}:{getattr(n, 'lineno', 0)}" if mod else "")
         if isinstance(base, Opaque):
             return Opaque(f"{base.name}[{idx!r}]")
+        if isinstance(base, LibV) and base.name in ("numpy.r_", "numpy.hstack"):
+            return ConcatV(idx.items if isinstance(idx, Tup) and idx.kind != "list" else [idx])
         if isinstance(base, ShapeOf):
             # the grid convention of the folder: dim0 is the length of the temperature axis, dim1 of the volume axis; a vector over the volumes only
             # (v_array.shape[0]) has its one axis along dim1
@@ -2803,6 +2807,20 @@ def lib_len(ev, a, k, n, mod):
 
 class RankOf(sp.Function):
     nargs = 1
+
+
+class RepeatV:
+    """(x,) * n: the same item n times, n not a constant"""
+
+    def __init__(self, item, count):
+        self.item, self.count = item, count
+
+
+class ConcatV:
+    """numpy.r_[part, part, ...] / concatenation of vectors whose lengths are expressions: parts are RepeatV, single values, or slices of a data vector"""
+
+    def __init__(self, parts):
+        self.parts = list(parts)
 
 
 class StackV:
